@@ -73,7 +73,8 @@ def content_digest(path):
 
 def _h5name(ws):
     f = ws.h5file
-    return os.path.realpath(str(f)) if isinstance(f, (str, os.PathLike)) else "<memory>"
+    # an in-memory File is named after the repr of its BytesIO object (stable across close / open)
+    return os.path.realpath(str(f)) if isinstance(f, (str, os.PathLike)) else repr(f)
 
 
 def call_traced(thunk, ws=None):
@@ -81,6 +82,7 @@ def call_traced(thunk, ws=None):
     the file(s) `ws` points at (before / after the call); calls and entries of other workspaces are only counted"""
     exc, msg = None, ""
     names = {_h5name(ws)} if ws is not None else set()
+    rp0 = bool(getattr(ws, "_repack", False))
     with iotrace.Trace() as t:
         try:
             thunk()
@@ -91,10 +93,11 @@ def call_traced(thunk, ws=None):
     if ws is not None:
         names.add(_h5name(ws))
     mine = [c for c in t.calls if ws is None or c["ws"] == id(ws)]
-    ents = [e for e in t.entries if ws is None or os.path.realpath(e["hfile"]) in names]
+    ents = [e for e in t.entries if ws is None or e["hfile"] in names or os.path.realpath(e["hfile"]) in names]
     return {"calls": [[c["fn"], c["mode"], c["file"], c["line"], c["handle"], c["out"], c["repack"], c["in_close"]] for c in mine],
             "entries": [[e["fn"], e["hmode"], e["out"]] for e in ents],
             "foreign_calls": len(t.calls) - len(mine), "foreign_entries": len(t.entries) - len(ents),
+            "repack_before": rp0, "repack_after": bool(getattr(ws, "_repack", False)),
             "exc": exc, "msg": msg}
 
 
